@@ -50,7 +50,7 @@ CODE = {"runnable": 0, "blocked": 1, "done": 2, "dead": 3, "new": 4}
 
 
 def dname(i):
-    return "d%d" % i
+    return "d%d" % int(i)
 
 
 def G(nodes, target, loaders=(), savers=None):
@@ -1004,6 +1004,9 @@ def summarise(ctx, tasks, results):
     strong_hits = []
     concrete = False
     xchecks = []
+    for r in results:           # the deterministic witness of finding F1 first
+        if "crash" not in r and r["kind"] == "f1":
+            report_f1(ctx, r)
     for t, r in zip(tasks, results):
         c = r["case"]
         if "crash" in r:
@@ -1012,7 +1015,6 @@ def summarise(ctx, tasks, results):
                           no_failing_input=True)
             continue
         if r["kind"] == "f1":
-            report_f1(ctx, r)
             continue
         if r.get("xcheck"):
             xchecks.append(r["xcheck"])
@@ -1203,7 +1205,9 @@ def replay(ctx, obj):
         print("nothing to replay for", inp)
         return 0
     case, schedule = inp["case"], inp["schedule"]
+    case["graph"]["savers"] = {int(k): v for k, v in case["graph"]["savers"].items()}   # JSON made the keys strings
     logging.disable(logging.CRITICAL)
+    sys.unraisablehook = lambda *a: None
     runner = CaseRunner(case)
     res, system = replay_on(runner.factory(case["N"]), schedule)
     cleanup_tmp(system)
